@@ -25,7 +25,9 @@ typedef struct {
   int air_len;
 } chip_t;
 
-static chip_t chip;
+static chip_t chips[2];
+static int cur;   // the radio the script is currently talking to (C18: two handles, two chips)
+#define chip chips[cur]
 
 static bool chip_is_lora(void) { return (chip.shared[1] & 0x80) != 0 && (chip.shared[1] & 0x40) == 0; }
 static uint8_t *chip_cell(int a) {
@@ -157,8 +159,22 @@ static int pre_transfer(void) {
   return code;
 }
 
-static void *the_spi_device = (void *) 0x5a5a;
+#define the_spi_device ((void *) &chips[cur])
 static unsigned wrong_device;
+// the chip addressed by a request is identified by the spi_device pointer of the handle
+static int enter_spi(void *spi_device) {
+  int saved = cur;
+  if (spi_device == (void *) &chips[0]) {
+    if (cur != 0) wrong_device++;
+    cur = 0;
+  } else if (spi_device == (void *) &chips[1]) {
+    if (cur != 1) wrong_device++;
+    cur = 1;
+  } else {
+    wrong_device++;
+  }
+  return saved;
+}
 
 static void contract(int reg, size_t n, bool buffer) {
   bool ok = reg >= 0 && reg <= 0x70;
@@ -174,8 +190,7 @@ static void contract(int reg, size_t n, bool buffer) {
   }
 }
 
-int sx127x_spi_read_registers(int reg, void *spi_device, size_t data_length, uint32_t *result) {
-  if (spi_device != the_spi_device) wrong_device++;
+static int sx127x_spi_read_registers_impl(int reg, void *spi_device, size_t data_length, uint32_t *result) {
   contract(reg, data_length, false);
   int code = pre_transfer();
   char tmp[64];
@@ -197,8 +212,14 @@ int sx127x_spi_read_registers(int reg, void *spi_device, size_t data_length, uin
   return 0;
 }
 
-int sx127x_spi_read_buffer(int reg, uint8_t *buffer, size_t buffer_length, void *spi_device) {
-  if (spi_device != the_spi_device) wrong_device++;
+int sx127x_spi_read_registers(int reg, void *spi_device, size_t data_length, uint32_t *result) {
+  int saved = enter_spi(spi_device);
+  int rc = sx127x_spi_read_registers_impl(reg, spi_device, data_length, result);
+  cur = saved;
+  return rc;
+}
+
+static int sx127x_spi_read_buffer_impl(int reg, uint8_t *buffer, size_t buffer_length, void *spi_device) {
   contract(reg, buffer_length, true);
   int code = pre_transfer();
   char tmp[64];
@@ -218,8 +239,14 @@ int sx127x_spi_read_buffer(int reg, uint8_t *buffer, size_t buffer_length, void 
   return 0;
 }
 
-int sx127x_spi_write_register(int reg, const uint8_t *data, size_t data_length, void *spi_device) {
-  if (spi_device != the_spi_device) wrong_device++;
+int sx127x_spi_read_buffer(int reg, uint8_t *buffer, size_t buffer_length, void *spi_device) {
+  int saved = enter_spi(spi_device);
+  int rc = sx127x_spi_read_buffer_impl(reg, buffer, buffer_length, spi_device);
+  cur = saved;
+  return rc;
+}
+
+static int sx127x_spi_write_register_impl(int reg, const uint8_t *data, size_t data_length, void *spi_device) {
   contract(reg, data_length, false);
   int code = pre_transfer();
   char tmp[64];
@@ -239,8 +266,14 @@ int sx127x_spi_write_register(int reg, const uint8_t *data, size_t data_length, 
   return 0;
 }
 
-int sx127x_spi_write_buffer(int reg, const uint8_t *buffer, size_t buffer_length, void *spi_device) {
-  if (spi_device != the_spi_device) wrong_device++;
+int sx127x_spi_write_register(int reg, const uint8_t *data, size_t data_length, void *spi_device) {
+  int saved = enter_spi(spi_device);
+  int rc = sx127x_spi_write_register_impl(reg, data, data_length, spi_device);
+  cur = saved;
+  return rc;
+}
+
+static int sx127x_spi_write_buffer_impl(int reg, const uint8_t *buffer, size_t buffer_length, void *spi_device) {
   contract(reg, buffer_length, true);
   int code = pre_transfer();
   char tmp[64];
@@ -258,6 +291,13 @@ int sx127x_spi_write_buffer(int reg, const uint8_t *buffer, size_t buffer_length
   }
   SPI(";");
   return 0;
+}
+
+int sx127x_spi_write_buffer(int reg, const uint8_t *buffer, size_t buffer_length, void *spi_device) {
+  int saved = enter_spi(spi_device);
+  int rc = sx127x_spi_write_buffer_impl(reg, buffer, buffer_length, spi_device);
+  cur = saved;
+  return rc;
 }
 
 // ------------------------------------------------------------------ environment events
@@ -367,9 +407,12 @@ static void env_apply(char *text) {
 }
 
 // ------------------------------------------------------------------ device + callbacks
-static sx127x *device;
-static uint64_t *freq_list;
-static char oncb[3][9000];  // reaction op for rx / tx / cad callbacks ("" = none)
+static sx127x *devices[2];
+#define device devices[cur]
+static uint64_t *freq_lists[2];
+#define freq_list freq_lists[cur]
+static char oncbs[2][3][9000];
+#define oncb oncbs[cur]  // reaction op for rx / tx / cad callbacks ("" = none)
 static int run_api(char **tok, int n, char *out, size_t outcap);
 
 static void react(int which) {
@@ -752,16 +795,24 @@ int main(int argc, char **argv) {
     if (n == 0) continue;
     const char *name = tok[0];
     if (!strcmp(name, "reset")) {
-      memset(&chip, 0, sizeof chip);
-      chip.shared[0x42] = 0x12;
-      chip.shared[0x01] = 0x09;  // power-on default: FSK, standby
-      for (int i = 0; i < 3; i++) oncb[i][0] = 0;
-      free(device);
-      device = NULL;
-      free(freq_list);
-      freq_list = NULL;
+      for (cur = 1; cur >= 0; cur--) {
+        memset(&chip, 0, sizeof chip);
+        chip.shared[0x42] = 0x12;
+        chip.shared[0x01] = 0x09;  // power-on default: FSK, standby
+        for (int i = 0; i < 3; i++) oncb[i][0] = 0;
+        free(device);
+        device = NULL;
+        free(freq_list);
+        freq_list = NULL;
+      }
+      cur = 0;
       wrong_device = 0;
       printf("reset\n");
+      continue;
+    }
+    if (!strcmp(name, "dev")) {
+      cur = (n > 1 && atoi(tok[1]) == 1) ? 1 : 0;
+      printf("dev %d\n", cur);
       continue;
     }
     if (!strcmp(name, "env")) {
@@ -820,8 +871,10 @@ int main(int argc, char **argv) {
     if (wrong_device) printf("!C18 request for a foreign spi device\n");
     monitor_cache(name);
   }
-  free(device);
-  free(freq_list);
+  for (cur = 1; cur >= 0; cur--) {
+    free(device);
+    free(freq_list);
+  }
   free(spilog);
   free(cblog);
   return 0;
